@@ -4,6 +4,9 @@
 //   drv_vec mt T seed nops : T real threads grow one vector concurrently; prints the per-call ranges
 //                      (start,len,id) and the value check result (oracle input)
 #include "common.h"
+#include <stdexcept>
+#include <cstring>
+#include <unistd.h>
 #include <sys/mman.h>
 #include <map>
 #include <mutex>
@@ -129,10 +132,58 @@ static int do_mt(int T, unsigned seed, int nops) {
     return 0;
 }
 
+// mode "ctorthrow": an element constructor throws inside a growth call, at every call index: the vector stays destructible, at(i) works or throws for
+// every i < size(), elements that were constructed keep their values, elements of the failed call read as zero.  Each case runs in a forked child so that a crash
+// is reported with its case.   cases: pre n kind k   (pre = elements before, n = growth, kind 0 grow_by(n, value) | 1 grow_by(iterators) | 2 grow_to_at_least(pre+n, value)
+// | 3 n x push_back, k = which copy throws, 1-based)      output per case: OK | BAD reason | CRASH signal
+#include <sys/wait.h>
+static int g_ct_copies = 0, g_ct_throw_at = -1;
+struct CE { long v; CE(long x = 0) : v(x) {} CE(const CE& o) : v(o.v) { if (++g_ct_copies == g_ct_throw_at) throw 1; } };
+static const char* ctor_case(long pre, long n, int kind, int k) {
+    tbb::concurrent_vector<CE> v;
+    g_ct_throw_at = -1;
+    for (long i = 0; i < pre; ++i) v.push_back(CE(1000 + i));
+    std::vector<CE> src; for (long i = 0; i < n; ++i) src.emplace_back(5000 + i);
+    g_ct_copies = 0; g_ct_throw_at = k; bool threw = false;
+    try {
+        if (kind == 0) v.grow_by((size_t)n, CE(7));
+        else if (kind == 1) v.grow_by(src.begin(), src.end());
+        else if (kind == 2) v.grow_to_at_least((size_t)(pre + n), CE(7));
+        else for (long i = 0; i < n; ++i) v.push_back(CE(7));
+    } catch (int) { threw = true; }
+    g_ct_throw_at = -1;
+    if (!threw && k <= n) return "BAD nothrow";
+    if ((long)v.size() < pre) return "BAD size-below-old";
+    for (size_t i = 0; i < v.size(); ++i) {
+        try { long x = v.at(i).v;
+              if ((long)i < pre && x != 1000 + (long)i) return "BAD old-element-changed";
+              if ((long)i >= pre && x != 0 && x != 7 && !(kind == 1 && x == 5000 + ((long)i - pre))) return "BAD garbage-element"; }
+        catch (const std::out_of_range&) {} catch (const std::range_error&) {} catch (...) { return "BAD at-throws-other"; }
+    }
+    // (no further growth call here: one that lands in a segment whose first index belonged to the failed call waits for that segment for ever - the library
+    //  documents growth after a failure as unsupported; the property only demands destructibility and safe accesses)
+    return "OK";
+}
+static int do_ctorthrow() {
+    std::vector<i128> c; Out o;
+    while (read_case(c)) {
+        std::fflush(stdout);
+        int fd[2]; if (pipe(fd)) return 3;
+        pid_t pid = fork();
+        if (pid == 0) { close(fd[0]); const char* r = ctor_case((long)c[0], (long)c[1], (int)c[2], (int)c[3]); ssize_t w = write(fd[1], r, strlen(r)); (void)w; _exit(0); }
+        close(fd[1]); char buf[64] = {0}; ssize_t rd = read(fd[0], buf, sizeof buf - 1); (void)rd; close(fd[0]);
+        int st = 0; waitpid(pid, &st, 0);
+        if (WIFSIGNALED(st)) { o.word("CRASH"); o.put(WTERMSIG(st)); } else if (!buf[0]) o.word("BAD no-answer"); else o.word(buf);
+        o.flush();
+    }
+    return 0;
+}
+
 int main(int argc, char** argv) {
     std::string m = argc > 1 ? argv[1] : "";
     if (m == "segidx") return do_segidx();
     if (m == "vec") return do_vec();
+    if (m == "ctorthrow") return do_ctorthrow();
     if (m == "mt") return do_mt(atoi(argv[2]), (unsigned)atoi(argv[3]), atoi(argv[4]));
     return 2;
 }
